@@ -41,7 +41,6 @@ var (
 	hAlg, hCrit, hCty, hScheme, hSigTime, hAuthST, hExpiry hdr
 	extraKeys                                             []any
 	extraHdr                                              []hdr
-	protectedUniverse                                     []any
 )
 
 func hdrFor(k any) (*hdr, string) {
